@@ -202,58 +202,80 @@ Proof.
   intros p Hp. destruct v; [discriminate| |]; injection Hp as <-; reflexivity.
 Qed.
 
+Lemma GPI_frame m0 tracks pending sdurs adj freeze errs :
+  map tk_frame tracks = map tk_frame (m_tracks m0) -> GPI m0 ->
+  GPI {| m_cfg := m_cfg m0; m_tracks := tracks; m_streams := m_streams m0; m_pending := pending;
+         m_sdurs := sdurs; m_adj := adj; m_freeze := freeze; m_paths := m_paths m0; m_errs := errs |}.
+Proof.
+  intros Hf [HS HP]. split; [|exact HP].
+  apply (SYNC_pointwise m0); [cbn [m_tracks]; now apply tk_stream_of_frame|apply Forall2_same; apply SameOpen_refl|exact HS].
+Qed.
+
+Lemma GPI_create m0 d ntp ti t :
+  nth_error (m_tracks m0) ti = Some t -> opened_at m0 (tk_stream t) = false -> GPI m0 -> GPI (createFirstSegment m0 d ntp).
+Proof.
+  intros Ht Ho [HS HP].
+  pose proof (SYNC_all_closed m0 ti t HS Ht Ho) as Hc.
+  unfold createFirstSegment. split.
+  + destruct HS as [S1 S2]. constructor; cbn [set_stream m_streams m_tracks].
+    * right. intros s' Hs'. apply in_map_iff in Hs'. destruct Hs' as (s & <- & _). discriminate.
+    * intros ti0 t0 Ht0. rewrite map_length. now apply (S2 ti0 t0).
+  + cbn [set_stream m_streams]. apply Forall_map. rewrite Forall_forall in *. intros s Hs.
+    apply PID_createFirst; auto.
+Qed.
+
+Lemma GPI_copy m0 i (l : stream) (both : bool) : GPI m0 -> GPI (upd_stream m0 i (copy_targets both l)).
+Proof.
+  intros [HS HP]. split.
+  + apply (SYNC_pointwise m0); [reflexivity| |exact HS]. unfold upd_stream. cbn [set_stream m_streams].
+    apply Forall2_upd_fun; auto using SameOpen_refl. intros x. unfold copy_targets, SameOpen. destruct (st_leading x); tauto.
+  + unfold upd_stream. cbn [set_stream m_streams]. apply Forall_upd; [exact HP|]. intros x _ Px.
+    unfold copy_targets. destruct (st_leading x); [exact Px|]. apply PID_st_with; auto. intros p Hp. eauto.
+Qed.
+
+Lemma GPI_pws m0 ti si smp m' : GPI m0 -> part_writeSample m0 ti si smp = Ok m' -> GPI m'.
+Proof.
+  intros [HS HP]. unfold part_writeSample.
+  destruct (nth_error (m_streams m0) si) as [s|] eqn:Es; [|intros [= <-]; split; auto].
+  destruct (nth_error (m_tracks m0) ti) as [t|] eqn:Et; [|intros [= <-]; split; auto].
+  destruct (st_open s) as [seg|] eqn:Eo; [|intros [= <-]; split; auto].
+  destruct (st_openpart s) as [p|] eqn:Ep; [|intros [= <-]; split; auto].
+  destruct (_ <? _); [discriminate|]. intros [= <-]. split.
+  + apply (SYNC_pointwise m0).
+    * unfold upd_stream, upd_track. cbn [set_stream set_tracks m_tracks]. apply map_upd_static. intros x. reflexivity.
+    * unfold upd_stream, upd_track. cbn [set_stream set_tracks m_streams]. rewrite (upd_ext_at _ si _ s Es).
+      apply Forall2_upd_const with (s := s); auto using SameOpen_refl.
+      unfold SameOpen. cbn [st_with st_open x_open]. rewrite Eo. split; discriminate.
+    * exact HS.
+  + unfold upd_stream, upd_track. cbn [set_stream set_tracks m_streams].
+    apply Forall_upd; [exact HP|]. intros x Hx Px. rewrite Es in Hx. injection Hx as <-.
+    apply PID_st_with; auto; cbn [x_open x_openpart st_mut sg_with_size sg_parts].
+    * now rewrite Eo.
+    * intros q [= <-]. exists p. split; [exact Ep|reflexivity].
+Qed.
+
+Lemma GPI_ts m0 si u size e inc : GPI m0 -> GPI (fst (ts_write m0 si u size e inc)).
+Proof.
+  intros [HS HP]. unfold ts_write.
+  destruct (nth_error (m_streams m0) si) as [s|] eqn:Es; [|split; auto].
+  destruct (st_open s) as [seg|] eqn:Eo; [|split; auto].
+  destruct (_ <? _); [split; auto|]. cbn [fst wok]. split.
+  + apply (SYNC_pointwise m0); [reflexivity| |exact HS]. unfold upd_stream. cbn [set_stream m_streams].
+    rewrite (upd_ext_at _ si _ s Es). apply Forall2_upd_const with (s := s); auto using SameOpen_refl.
+    unfold SameOpen. cbn [st_with st_open x_open]. rewrite Eo. split; discriminate.
+  + unfold upd_stream. cbn [set_stream m_streams]. apply Forall_upd; [exact HP|]. intros x Hx Px.
+    rewrite Es in Hx. injection Hx as <-.
+    apply PID_st_with; auto; cbn [x_open x_openpart st_mut sg_ts_write sg_parts].
+    * now rewrite Eo.
+    * intros q Hq. eauto.
+Qed.
+
 Theorem GPI_mux_step m o : GPI m -> GPI (fst (mux_step m o)).
 Proof.
-  apply (T_mux_step GPI).
-  - (* frame *) intros m0 tracks pending sdurs adj freeze errs Hf [HS HP]. split; [|exact HP].
-    apply (SYNC_pointwise m0); [cbn [m_tracks]; now apply tk_stream_of_frame|apply Forall2_same; apply SameOpen_refl|exact HS].
-  - (* createFirstSegment, only when the writing track's stream is closed: then every stream is *)
-    intros m0 d ntp ti t Ht Ho [HS HP].
-    pose proof (SYNC_all_closed m0 ti t HS Ht Ho) as Hc.
-    unfold createFirstSegment. split.
-    + destruct HS as [S1 S2]. constructor; cbn [set_stream m_streams m_tracks].
-      * right. intros s' Hs'. apply in_map_iff in Hs'. destruct Hs' as (s & <- & _). discriminate.
-      * intros ti0 t0 Ht0. rewrite map_length. now apply (S2 ti0 t0).
-    + cbn [set_stream m_streams]. apply Forall_map. rewrite Forall_forall in *. intros s Hs.
-      apply PID_createFirst; auto.
+  apply (T_mux_step GPI); auto using GPI_frame, GPI_rots, GPI_copy, GPI_ts.
+  - intros m0 d ntp ti t Ht Ho H. eapply GPI_create; eauto.
   - intros; now apply GPI_rotp.
-  - apply GPI_rots.
-  - intros m0 i l both [HS HP]. split.
-    + apply (SYNC_pointwise m0); [reflexivity| |exact HS]. unfold upd_stream. cbn [set_stream m_streams].
-      apply Forall2_upd_fun; auto using SameOpen_refl. intros x. unfold copy_targets, SameOpen. destruct (st_leading x); tauto.
-    + unfold upd_stream. cbn [set_stream m_streams]. apply Forall_upd; [exact HP|]. intros x _ Px.
-      unfold copy_targets. destruct (st_leading x); [exact Px|]. apply PID_st_with; auto. intros p Hp. eauto.
-  - (* muxerPart.writeSample *)
-    intros m0 ti si smp m' [HS HP]. unfold part_writeSample.
-    destruct (nth_error (m_streams m0) si) as [s|] eqn:Es; [|intros [= <-]; split; auto].
-    destruct (nth_error (m_tracks m0) ti) as [t|] eqn:Et; [|intros [= <-]; split; auto].
-    destruct (st_open s) as [seg|] eqn:Eo; [|intros [= <-]; split; auto].
-    destruct (st_openpart s) as [p|] eqn:Ep; [|intros [= <-]; split; auto].
-    destruct (_ <? _); [discriminate|]. intros [= <-]. split.
-    + apply (SYNC_pointwise m0).
-      * unfold upd_stream, upd_track. cbn [set_stream set_tracks m_tracks]. apply map_upd_static. intros x. reflexivity.
-      * unfold upd_stream, upd_track. cbn [set_stream set_tracks m_streams]. rewrite (upd_ext_at _ si _ s Es).
-        apply Forall2_upd_const with (s := s); auto using SameOpen_refl.
-        unfold SameOpen. cbn [st_with st_open x_open]. rewrite Eo. split; discriminate.
-      * exact HS.
-    + unfold upd_stream, upd_track. cbn [set_stream set_tracks m_streams].
-      apply Forall_upd; [exact HP|]. intros x Hx Px. rewrite Es in Hx. injection Hx as <-.
-      apply PID_st_with; auto; cbn [x_open x_openpart st_mut sg_with_size sg_parts].
-      * now rewrite Eo.
-      * intros q [= <-]. exists p. split; [exact Ep|reflexivity].
-  - (* MPEG-TS segment write *)
-    intros m0 si u size e inc [HS HP]. unfold ts_write.
-    destruct (nth_error (m_streams m0) si) as [s|] eqn:Es; [|split; auto].
-    destruct (st_open s) as [seg|] eqn:Eo; [|split; auto].
-    destruct (_ <? _); [split; auto|]. cbn [fst wok]. split.
-    + apply (SYNC_pointwise m0); [reflexivity| |exact HS]. unfold upd_stream. cbn [set_stream m_streams].
-      rewrite (upd_ext_at _ si _ s Es). apply Forall2_upd_const with (s := s); auto using SameOpen_refl.
-      unfold SameOpen. cbn [st_with st_open x_open]. rewrite Eo. split; discriminate.
-    + unfold upd_stream. cbn [set_stream m_streams]. apply Forall_upd; [exact HP|]. intros x Hx Px.
-      rewrite Es in Hx. injection Hx as <-.
-      apply PID_st_with; auto; cbn [x_open x_openpart st_mut sg_ts_write sg_parts].
-      * now rewrite Eo.
-      * intros q Hq. eauto.
+  - intros m0 ti si smp m' H Hw. eapply GPI_pws; eauto.
 Qed.
 
 Theorem GPI_mux_run ops : forall m, GPI m -> GPI (mux_run m ops).
